@@ -77,6 +77,15 @@ void h_th_invert_flip_transpose(void){ LOCALS; u32 p[3]; i32 a = in_i32(0, 1), a
   int r = k_th_invert_flip_transpose(shape, data, p, out, os, GEOM);
   ASSERT(r != 1 || (os[0] == shape[p[0]] && os[1] == shape[p[1]]), "output shape == view shape");
   step_ok(r, out, out0, g, size, ~ref_flip_transpose(data, p, ax, shape, g < size ? g : 0)); REACHED(); }
+/* non-commuting depth-3 chain: flip(transpose(flip(a, ax0), perm), ax) */
+void h_th_flip_transpose_flip(void){ LOCALS; u32 p[4]; i32 a = in_i32(0, 1), ax = in_i32(-2, 1), ax0 = in_i32(-2, 1); p[0] = (u32)a; p[1] = (u32)(1 - a); p[2] = (u32)ax; p[3] = (u32)ax0;
+  int r = k_th_flip_transpose_flip(shape, data, p, out, os, GEOM);
+  ASSERT(r != 1 || (os[0] == shape[p[0]] && os[1] == shape[p[1]]), "output shape == view shape");
+  u64 gg = g < size ? g : 0, e0 = shape[p[0]], e1 = shape[p[1]], i = gg / e1, j = gg % e1, src[2];
+  if (norm(ax, 2) == 0) i = e0 - 1 - i; else j = e1 - 1 - j;      /* outer flip on the transposed array */
+  src[p[0]] = i; src[p[1]] = j;                                  /* transpose */
+  if (norm(ax0, 2) == 0) src[0] = n0 - 1 - src[0]; else src[1] = n1 - 1 - src[1];   /* inner flip on the source */
+  step_ok(r, out, out0, g, size, data[src[0]*n1 + src[1]]); REACHED(); }
 /* reduction: the output has shape[1-axis] elements, so most threads are beyond the output */
 void h_th_sum(void){ LOCALS; u32 p[1]; i32 ax = in_i32(-2, 1); p[0] = (u32)ax; u64 an = norm(ax, 2), osize = an == 0 ? n1 : n0, gg = g < osize ? g : 0;
   int r = k_th_sum(shape, data, p, out, os, GEOM);
